@@ -123,7 +123,11 @@ func main() {
 	}
 	e := common.New(5)
 	n := e.Pick(450, 6000)
-	for i := 0; i < n; i++ {
+	// planned programs behind the random ones: every filter chain pattern (length 1..8, every
+	// pattern of filters with and without parameters) and every shape of a chain declared in the
+	// caller's dictionary under 0, 1, 2 filters of OpenStream
+	specials := prog.ChainSpecials()
+	for i := 0; i < n+len(specials); i++ {
 		id := fmt.Sprintf("f%d", i)
 		k := i
 		cfg := prog.Config{}
@@ -145,6 +149,10 @@ func main() {
 			plan.SparseHigh = e.Thorough && e.Rand.IntN(6) == 0
 		case r < 4:
 			plan.ZeroCompressed = true
+		case r < 8:
+			plan.PreFilter = true
+		case r < 10:
+			plan.DeferredStream = true
 		}
 		if i < 4 {
 			cfg = prog.Config{VIdx: 5 + i%4, Seek: i%2 == 0}
@@ -164,6 +172,9 @@ func main() {
 					plan.Batch = 300
 				}
 			}
+		}
+		if i >= n {
+			cfg, plan = specials[i-n].Cfg, specials[i-n].Plan
 		}
 		res := prog.Run(e.Rand, cfg, plan)
 		if res.ErrIdx != -1 || res.File == nil {
@@ -196,7 +207,7 @@ func main() {
 			e.Line("nometa.txt", "%s", id)
 		}
 		// the same program for the model writer (no cipher in the model instance that is run)
-		if !enc && !res.PreFilter && !res.Sparse {
+		if !enc && !res.Sparse {
 			e.Line("cases.txt", "%sm %s", id, res.CaseLine())
 			e.Line("expect_m.txt", "%sm verdict ok", id)
 			if rb.OpenErr == nil {
